@@ -579,6 +579,7 @@ Property make() {
            "one value of a valid template replaced by one of 25 bad values, list shortened/lengthened/emptied, an extra keyword out of ~100 with a bad value, atom numbers out of range, "
            "boundaries swapped, a keyword dropped, a missing file), output request, run 1-8 steps with or without a graceful end}; twin = same plan without the refused requests; "
            "non-trivial = at least one invalid request and one step; distinct = hash of (operation-kind sequence, mutated keywords)";
+  p.rule += " Later additions: 40% of the invalid variable requests come from the whole component catalogue (31 types) with degenerate groups, axes, references, cut-offs, exponents; bias keywords are drawn half of the time from the bias type's own list; literals no number type can hold; histogramRestraint and multiple-walker requests with frequency zero.";
   p.assumptions = {"kinematic engine; a request the library accepts (the value turned out to be tolerated) stays in both runs and is only exercised for survival on the following steps and outputs",
                    "bitwise equality with the twin is required for every object defined by a valid request",
                    "the vocabulary of bad values is input generation, not simulation: what this check decides is the behaviour of a running module around the refused request"};
